@@ -3,7 +3,7 @@
    Partial claim: the theorems are about the transcription coq/Impl/Xen.v of the guards
    (src/volatile_memory.rs) and of the on-demand window machinery (src/mmap/xen.rs), with the device
    answers as inputs; a real Xen hypervisor is not reached (the harness emulates gntdev/privcmd). *)
-From VM Require Import Prelude.MachInt Prelude.Outcome Impl.MmapBuild Impl.Xen Spec.C17 Suite.C17 Proofs.C17 Proofs.C17Hist.
+From VM Require Import Prelude.MachInt Prelude.Outcome Impl.MmapBuild Impl.Xen Spec.C17 Suite.C17 Proofs.C17 Proofs.C17Hist Proofs.C17Chain.
 
 (* the standard-build model satisfies the executable checker on every input *)
 Theorem C17_model_ok : forall c, c_kind c < 3 -> ok_C17 c (run_C17 c) = true.
@@ -115,6 +115,40 @@ Example C17_nonvacuous :
   on_demand demo_region = true /\ guard_len Debug (AArray 4 4) = Val 16.
 Proof. vm_compute. repeat split. Qed.
 
+(* derivation chains (suite C17xenchain).  Every accessor carries one bit: the region's mapping handle was passed on to it.
+   For EVERY chain of derivations, of any length, over all accessor-producing methods of volatile_memory.rs (subslice, offset,
+   both halves of split_at, get_slice, get_ref, get_array_ref, as_volatile_slice, From<VolatileSlice> for VolatileArrayRef<u8>,
+   Clone/Copy, to_slice, ref_at), from any root the region hands out: the final accessor carries the handle iff the region is
+   mapped on demand (induction over the chain; each step transcribes which argument the constructor call passes as `mmap`) *)
+Theorem C17_handle_propagates : forall m g r l a, d_chain m g r l = Val (Some a) -> acc_h a = on_demand g.
+Proof. exact handle_propagates_lemma. Qed.
+
+(* therefore the access that ends a chain on an on-demand region is never the bare dereference of the stored address
+   (XCopyToVS, the shape of finding F6b): it is a guard over exactly the bytes of the final accessor - an operation
+   XSliceGuard, for which C17_access_inside_window / C17_windows_released / C17x_model_ok hold - or the chain was refused *)
+Theorem C17_chain_guarded : forall m g r l f op, on_demand g = true -> chain_op m g r l f = Val op ->
+  op = err_xop g \/ exists a goff glen w, d_chain m g r l = Val (Some a) /\
+                       fin_plan m a f = Val (Some (goff, glen, w)) /\ op = XSliceGuard goff glen w.
+Proof. exact chain_guarded_lemma. Qed.
+
+(* the pages a window names (suites C17xen / C17xenchain judge with ok_C17xn = ok_C17x + every map request of the log is
+   followed by its reference list (domid of the region, first + i) for i < count).  The model - the history model with
+   the list GntDevMapGrantRef::new builds inserted after every map request - satisfies it on EVERY history *)
+Theorem C17xn_model_ok : forall c ops,
+  (cx_rkind c < 4 /\ 0 < cx_page c /\ cx_gbase c mod cx_page c = 0 /\
+   cx_gbase c + cx_size c + cx_page c <= 4294967296 * cx_page c /\
+   cx_gbase c + cx_size c + cx_page c < 9223372036854775808) ->
+  xops_of (cx_ops c) = Some ops ->
+  (cx_rkind c = 3 -> forall x, In x (cx_ops c) -> x_code x <> 9 /\ x_code x <> 10) ->
+  ok_C17xn c (run_C17xn c ops) = true.
+Proof. exact C17xn_model_ok_lemma. Qed.
+
+(* the loop of GntDevMapGrantRef::new (xen.rs:732-745, transcribed with its u32 arithmetic): for a request that stays below
+   2^32 it names page i of the window as (domid, base + i), for every count, in both build profiles *)
+Theorem C17_grant_refs_loop : forall m domid base count, base + count <= 4294967296 ->
+  gnt_refs_new m domid base 0 (N.to_nat count) = Val (named_refs domid base count).
+Proof. exact grant_refs_loop_lemma. Qed.
+
 Print Assumptions C17_model_ok.
 Print Assumptions C17x_model_ok.
 Print Assumptions C17_guard_len_bytes.
@@ -125,3 +159,7 @@ Print Assumptions C17_windows_released.
 Print Assumptions C17_window_leak_on_mmap_failure_witness.
 Print Assumptions C17_zero_len_guard_noop.
 Print Assumptions C17_unguarded_refuted.
+Print Assumptions C17_handle_propagates.
+Print Assumptions C17_chain_guarded.
+Print Assumptions C17xn_model_ok.
+Print Assumptions C17_grant_refs_loop.
